@@ -112,6 +112,7 @@ func (o *operations) GracefulClose() {
 	// o.isClosed=true will also not allow a new busyCh
 	// to be created.
 	o.isClosed = true
+	verifEvent("ops.closed", o)
 
 	busyCh := o.busyCh
 	o.mu.Unlock()
